@@ -20,7 +20,9 @@ def vio(prop, oracle, site, detail=""):
 
 
 class TraceRun:
-    def __init__(self, plan, faults=None, inputs=None, props=("C01", "C04", "C08"), world_hook=None):
+    def __init__(self, plan, faults=None, inputs=None, props=("C01", "C04", "C08"), world_hook=None,
+                 mode="traced"):
+        self.mode = mode
         self.plan = plan
         self.faults = faults or {}
         self.inputs = inputs if inputs is not None else [i["v"] for i in plan["inputs"]]
@@ -28,6 +30,8 @@ class TraceRun:
         self.world_hook = world_hook
         self.violations = []
         self.caught = []           # (site, class name, message prefix)
+        self.caught_ctx = []       # (site, class name, dead?, depth)
+        self.region_dead = {}      # (rid, branch) -> executed under a false effective guard
         self.outcome = None        # "completed" | "raised:<cls>"
         self.outcome_msg = ""
         self.steps = 0
@@ -117,16 +121,28 @@ class TraceRun:
                 vals.append(x)
         self.pack_out[n] = vals
 
-    def cb_caught(self, site, e):
+    def cb_caught(self, site, e, model=()):
         cls = type(e).__name__
         self.caught.append((site, cls, str(e)[:60]))
         self.probe("caught_" + cls)
+        flat = [x for m in model for x in m]
+        dead = any(x == 0 for x in flat)
+        self.caught_ctx.append((site, cls, dead, len(model)))
+        plain_index = isinstance(e, IndexError) and str(e).startswith("list ")   # public index: the script's own bug
+        if dead and "C07" in self.props and isinstance(e, VALUE_ERRORS) and not plain_index:
+            info = self.gen.sites.get(site, {})
+            s = dict(info.get("desc") or {})
+            s["exc"] = cls
+            self.violations.append(vio("C07", "raised_in_dead_region", s,
+                                       "%s(%s) raised under a false guard" % (cls, str(e)[:80])))
 
     def cb_step(self, site, loc, model):
         self.steps += 1
         info = self.gen.sites.get(site, {})
         if "desc" in info:
             self.cur_desc = info["desc"]
+        if info.get("kind") == "region_entry" and model and info.get("rstack"):
+            self.region_dead[info["rstack"][-1]] = any(x == 0 for m in model for x in m)
         if info.get("kind") == "region_entry" and model:
             base = self.snap[-1][5] if self.snap else self.ie_cur
             self.ie_cur = bool(base) or any(x == 0 for x in model[-1])
@@ -248,7 +264,7 @@ class TraceRun:
             rec.abort_at = rec.seam_calls + self.faults["abort_seam"]
             if self.faults.get("abort_exc") == "interrupt":
                 rec.abort_exc = W.InjectedInterrupt
-        self.gen = CodeGen(self.plan)
+        self.gen = CodeGen(self.plan, self.mode)
         self.src = self.gen.generate()
         rt = w.runtime
         g = {
